@@ -77,4 +77,28 @@ PROPS = {
         explanation="Lean theorems over the reconnect model for all histories (accepted once in order, redial flags, ping filtered, reads continue, budget, dead means error); tie = differential run of the real transport against the model",
         assumptions=["an underlying Write that returns an error did not deliver", "single-writer issue order; for concurrent bursts only exactly-once is claimed (order between concurrent writers is the scheduler's)"],
     ),
+    'C01': dict(
+        lean_modules=['Iscp.Props.C01'],
+        gen=[],
+        harnesses=[dict(name='up', pkg='./corr/up', topic='up', n_quick=300, n_thorough=2500, thorough_seeds=4, timeout=600)],
+        trusted_base=COMMON_TB + [
+            "the scripted in-memory broker (go/broker): transport.Pipe + the real protobuf encoding on the broker side; hook H1 (dialer registry), H2 (sent storage option)",
+            "modelled, not verified: goroutine scheduling of Write/Flush callers (the model's event order is the order in which the single flushLoop goroutine serves them), the eventDispatcher goroutine running hooks, timers (ticks are events; the harness owns the ticker channel of interval policies)",
+        ],
+        rule="lock-step cases: each of 8 policy settings x QoS x pre-registered ids, random histories of 6-30 ops (writes of 0-3 points with payload sizes straddling the thresholds under 4 data ids, ticks, Flush, acks for any subset of outstanding chunks in any order with success/failure codes, duplicates and unknown sequence numbers, alias assignments and re-announcements, state snapshots), then Close; every op's observable effects (chunks at the broker, State(), send/ack hook calls, close request) compared with the model; plus concurrent cases (2-8 writer goroutines, real tickers, Flush from many goroutines, self-acknowledging broker) judged by the conservation oracle on the broker's ledger; distinct = (policy, qos, pre-registration, op signature); non-trivial = at least two acks (sampled)",
+        explanation="Lean theorems over all event histories of the upstream model (conservation per data id, contiguous numbering, alias round trip = send hook content, close totals, ack hook, store tracking); tie = differential lock-step run of a real Conn/Upstream against the model through a scripted broker, and the property's own ledger oracle",
+        assumptions=["the connection stays up (C02 covers disconnects)", "the broker never announces one data id alias for two different ids"],
+    ),
+    'C20': dict(
+        lean_modules=['Iscp.Props.C20'],
+        gen=[],
+        harnesses=[dict(name='up', pkg='./corr/up', topic='up', n_quick=300, n_thorough=2500, thorough_seeds=4, timeout=600)],
+        trusted_base=COMMON_TB + [
+            "the scripted in-memory broker (go/broker); hook H1, H2",
+            "modelled, not verified: wall-clock behaviour of the interval ticker (a tick is an event; the real 1 ms ticker is exercised in the concurrent cases by the oracle only)",
+        ],
+        rule="same harness as C01: every policy (none, interval, size 0/3/8, interval-or-size 8/20, immediate), payload sizes 0,1,2,3,4,5,8,9 straddling the thresholds, zero-point writes, ticks, Flush, State() compared after every op with the model; concurrent cases with Flush from several goroutines; distinct = (policy, qos, pre-registration, op signature)",
+        explanation="Lean theorems (flush barrier, none/size/immediate/interval policy, snapshot conservation, no empty cut) over all event histories of the upstream model; tie = the C01 lock-step correspondence",
+        assumptions=["interval policy: 'within one interval' is measured, not proved (a tick is an event)"],
+    ),
 }
